@@ -124,6 +124,14 @@ func genC17Value(c *rt.C, quick bool) c17Value {
 		}
 		maps = append(maps, m)
 	}
+	if rng.IntN(3) == 0 {
+		// a sloppy file: the CMap is built directly in the CIDInit dictionary
+		maps = maps[:1]
+		maps[0].NoDict = true
+		if mode >= 2 {
+			maps[0].OmitName, maps[0].ResKey = false, ""
+		}
+	}
 	v.cmap = ref.RenderFile(rng, maps)
 	// a font file with seac composites, including a composite of a composite
 	mf := genModelFontOpt(rng, true)
